@@ -191,7 +191,7 @@ func checkC19(c *Ctx) {
 			continue
 		}
 		// find guard: If on Extract#1 of Lookup(revsymtable, load nextsymbol)
-		var guardBlk, freeSucc *ssa.BasicBlock
+		var guardBlk, freeSucc, usedSucc *ssa.BasicBlock
 		for _, b := range mk.Blocks {
 			cond, t, e := condBranch(b)
 			if cond == nil {
@@ -210,9 +210,9 @@ func checkC19(c *Ctx) {
 				continue
 			}
 			guardBlk = b
-			freeSucc = e // used==false
+			freeSucc, usedSucc = e, t // used==false / used==true
 			if neg {
-				freeSucc = t
+				freeSucc, usedSucc = t, e
 			}
 		}
 		if guardBlk == nil {
@@ -222,6 +222,14 @@ func checkC19(c *Ctx) {
 		region := reachableAvoiding(freeSucc, func(b *ssa.BasicBlock) bool { return b == guardBlk })
 		okRegion := freeSucc.Dominates(mu.Block()) || freeSucc == mu.Block()
 		detail := ""
+		// the hand-out must not be reachable from the `used` side without coming back through the test
+		if usedSucc != nil {
+			viaUsed := reachableAvoiding(usedSucc, func(b *ssa.BasicBlock) bool { return b == guardBlk })
+			if viaUsed[mu.Block()] || usedSucc == mu.Block() {
+				okRegion = false
+				detail = "when the number is in use the code moves on and hands out the next number without testing it (the test must be repeated until a free number is found: a sibling may have taken several)"
+			}
+		}
 		for b := range region {
 			if b != mu.Block() && !blockReaches(b, mu.Block()) {
 				continue
